@@ -29,6 +29,7 @@ fn main() {
                 }
             }
             println!("families: {fam:?}");
+            println!("exhaustive_claim: {}; {}", spec.exhaustive_claim, spec.assumptions.iter().filter(|a| a.starts_with("NOT exhaustive")).cloned().collect::<Vec<_>>().join("; "));
             if let Some(k) = args.get(4).and_then(|s| s.parse::<usize>().ok()) {
                 for j in spec.jobs.iter().step_by((spec.jobs.len() / k).max(1)) {
                     println!("  {} {}", j.programs[j.programs.len() / 2].name, j.programs[j.programs.len() / 2].short());
